@@ -49,7 +49,7 @@ type params struct {
 func (*prop) Cases(seed int64, tier string) []core.Case {
 	nc, n := 16, 6
 	if tier == "thorough" {
-		nc, n = 64, 10
+		nc, n = 96, 12
 	}
 	var cs []core.Case
 	for i := 0; i < nc; i++ {
